@@ -4,8 +4,12 @@ Rational lists (proof tier): `ExponentLattice(bs).compute_basis()` of the workin
 Lean specification (polar-model op `lattice_check`): every returned row must satisfy ∏ bᵢ^eᵢ = 1
 (`relationHolds`), the rows must be independent (`independent`) and every row of the verified basis
 `latticeBasis bs` (theorem `c16_rational`) must lie in their integer span (`inIntSpan`); by theorem
-`c16_check_sound` a green verdict means the returned rows are a ℤ-basis of the exponent lattice.
-Next to it the correspondence with the Lean model of the code (`kernelAsCoded`, op `lattice_model`).
+`c16_check_iff` the verdicts are green iff the returned rows are a ℤ-basis of the exponent lattice.
+Next to it the correspondence with the Lean model of the code (`latticeAsCoded`, op `lattice_model`): the
+code's rows must equal the model's rows one for one; theorem `c16_code_correct` says the modelled algorithm
+(shortcut + multiplicity/parity system + `_integer_kernel`) returns a ℤ-basis for every list of non-zero
+rationals.  A wrong answer on a rational list is always a VIOLATION (F4 / F4b were repaired in /repo, commits
+526383e, 41c095b; their inputs stay in the corpus as regression cases).
 
 Algebraic lists (test tier, labelled as such): bases in one quadratic field ℚ(√D) (exact pair
 arithmetic in Lean, op `lattice_check_quad`): soundness exactly, completeness by enumeration of the box
@@ -15,11 +19,9 @@ import json
 import os
 from fractions import Fraction as Fr
 
-from ..common import Check, lean_gate, ROOT, model_batch_parallel, rng
+from ..common import Check, lean_gate, ROOT, model_batch, rng
 from ..pool import run_tasks
-from ..findings import attribute
 from ..theorems import THEOREMS as _T
-from .. import attrib_c16 as A
 
 PROP = "C16"
 THEOREMS = _T.get(PROP, [])
@@ -28,23 +30,24 @@ TRUSTED = [
     "Lean 4.33 kernel; axioms propext, Classical.choice, Quot.sound only",
     "Mathlib definitions: padicValRat, Nat.Prime, zpow on ℚ",
     "compiled polar-model agrees with the kernel semantics of the same definitions (relationHolds, latticeBasis, "
-    "inIntSpan, independent, kernelAsCoded)",
+    "inIntSpan, independent, latticeAsCoded)",
     "harness: generator, conversion of rationals to sympy numbers, transport of integer rows as JSON",
     "algebraic tier only: sympy minimal_polynomial / evalf(80) for mixed-field bases; for ℚ(√D) the pair arithmetic "
     "of Polar/Lattice.lean is proved exact (relationHoldsQuad_iff) but completeness there is bounded enumeration (a "
     "test), and the harness' translation a + b*sqrt(D) -> sympy expression is trusted",
 ]
 
-# theorem name -> (bases, what the code must return for the counterexample to be a replay of the real code)
-COUNTEREXAMPLES = {
-    "Polar.Lattice.c16_counterexample_4_8": (["4", "8"], [[-1, 1]]),
-    "Polar.Lattice.c16_counterexample_4_half": (["4", "1/2"], [[0, 1]]),
-    "Polar.Lattice.c16_counterexample_9_27_3": (["9", "27", "3"], [[-1, 1, 0], [0, 0, 1]]),
-    "Polar.Lattice.c16_counterexample_1_2": (["1", "2"], []),
+# inputs of the repaired defects F4 (rational nullspace cast to int) and F4b (base 1 dropped): regression cases with
+# the rows the repaired code must return (= `latticeAsCoded`, `decide`d in PolarProofs/Lattice.lean)
+REGRESSION = {
+    ("4", "8"): [[3, -2]],
+    ("4", "1/2"): [[1, 2]],
+    ("9", "27", "3"): [[1, 0, -2], [0, 1, -3]],
+    ("1", "2"): [[1, 0]],
 }
 
 SUITE_RATIONAL = [["2", "1/2"], ["1", "-1"]]
-CORPUS_RATIONAL = SUITE_RATIONAL + [v[0] for v in COUNTEREXAMPLES.values()] + [
+CORPUS_RATIONAL = SUITE_RATIONAL + [list(k) for k in REGRESSION] + [
     ["-1"], ["1"], ["1", "1"], ["-1", "-1"], ["-2", "3", "6"], ["-2", "2"], ["-2", "2", "4"], ["-1", "2"],
     ["2", "3"], ["-2", "-3"], ["1", "4"], ["1", "2", "4"], ["-4", "2"], ["-4", "-2"], ["4", "-8"],
     ["2", "1/2", "1", "-1"], ["6", "10", "15"], ["2/3", "3/2"], ["2/3", "9/4"], ["1", "-1", "-1"],
@@ -188,6 +191,22 @@ def quad_bound(k):
 # running
 # ------------------------------------------------------------------------------------------------
 
+def model_batch_parallel(requests, chunks=12, timeout=900):
+    """requests piped through a dozen polar-model processes (many requests per process), answers in order"""
+    if len(requests) <= 8:
+        return model_batch(requests, timeout)
+    from concurrent.futures import ThreadPoolExecutor
+    k = min(chunks, len(requests))
+    parts = [requests[i::k] for i in range(k)]
+    with ThreadPoolExecutor(max_workers=k) as ex:
+        res = list(ex.map(lambda part: model_batch(part, timeout), parts))
+    out = [None] * len(requests)
+    for i, part in enumerate(res):
+        for j, a in enumerate(part):
+            out[i + j * k] = a
+    return out
+
+
 def _batches(items, n):
     return [items[i:i + n] for i in range(0, len(items), n)]
 
@@ -242,23 +261,6 @@ def failing_clauses(v):
     return out
 
 
-def add_repairs(recs):
-    """for failing records inside a known-finding signature: re-run with the repair patched in memory and
-    ask Lean for the verdict on the repaired answer"""
-    for repair, fid in (("kernel", "F4"), ("one", "F4b")):
-        sel = [r for r in recs if A.in_signature(r["bases"]) == fid]
-        if not sel:
-            continue
-        cases = [{"bases": r["bases"], "how": r["how"]} for r in sel]
-        outs = _run_batched("harness.tasks.c16:repaired_batch", cases, 25, 90, {"repair": repair})
-        reqs = [{"op": "lattice_check", "bases": r["bases"], "rows": o["basis"] if o.get("status") == "ok" else []}
-                for r, o in zip(sel, outs)]
-        ans = model_batch_parallel(reqs)
-        for r, o, a in zip(sel, outs, ans):
-            r.setdefault("repaired", {})[repair] = bool(o.get("status") == "ok" and passes(a))
-            r.setdefault("repaired_basis", {})[repair] = o.get("basis")
-
-
 def describe(rec):
     v = rec["verdict"]
     return (f"bases {rec['bases']}: compute_basis() = {rec['out'].get('basis')} fails {'+'.join(failing_clauses(v))}; "
@@ -275,7 +277,7 @@ def replay_blob(rec):
 
 
 def minimise_rational(rec):
-    """drop bases / shrink while the same clauses keep failing and the failure is not a known finding"""
+    """drop bases while the same clauses keep failing"""
     cur = rec
     want = failing_clauses(rec["verdict"])
     improved = True
@@ -285,7 +287,7 @@ def minimise_rational(rec):
         rs = analyse_rational(cands)
         for r in rs:
             if r["out"].get("status") == "ok" and r["verdict"].get("ok") and not passes(r["verdict"]) \
-                    and failing_clauses(r["verdict"]) == want and A.in_signature(r["bases"]) is None:
+                    and failing_clauses(r["verdict"]) == want:
                 cur = r
                 improved = True
                 break
@@ -319,16 +321,14 @@ def run(tier):
         seen.add(tuple(bs))
         cases.append({"bases": bs, "how": r.choice(HOWS[:2] + ["div"]), "family": fam})
     recs = analyse_rational(cases) if lean_ok else []
-    add_repairs([x for x in recs if x["out"].get("status") == "ok" and x["verdict"].get("ok")
-                 and not passes(x["verdict"])])
-    n_pass = n_known = n_viol = n_model_diff = n_exact = 0
+    n_pass = n_viol = n_model_diff = n_exact = 0
     model_diffs = []
     fam_stats = {}
     reported = set()
     sampled = set()
     for x in recs:
         chk.evaluations += 1
-        fs = fam_stats.setdefault(x["family"], {"n": 0, "pass": 0, "known": 0, "nontrivial": 0})
+        fs = fam_stats.setdefault(x["family"], {"n": 0, "pass": 0, "nontrivial": 0})
         fs["n"] += 1
         chk.count("branch:" + str(x["out"].get("branch")))
         chk.count("k=%d" % len(x["bases"]))
@@ -353,8 +353,8 @@ def run(tier):
                 chk.nontrivial.add(tuple(x["bases"]))
         exact = x["out"]["basis"] == x["model"]["basis"]
         n_exact += exact
-        # correspondence with the model of the code: same verdict, and the same wrong answer when wrong
-        if ok != bool(x["model"].get("model_passes")) or (not ok and not exact):
+        # correspondence with the model of the code: the same rows in the same order
+        if not exact:
             n_model_diff += 1
             model_diffs.append({"bases": x["bases"], "code": x["out"]["basis"], "model": x["model"]["basis"]})
         if ok:
@@ -363,18 +363,7 @@ def run(tier):
             if v.get("spec_basis") and tuple(x["bases"]) not in sampled and x["family"] != "corpus":
                 sampled.add(tuple(x["bases"]))
                 chk.sample({"bases": x["bases"], "family": x["family"], "compute_basis": x["out"]["basis"],
-                            "verified_basis": v["spec_basis"], "verdict": "sound, independent, complete"}, limit=3 + sum(1 for q in chk.samples if "known_finding" in q))
-            continue
-        fid = attribute(PROP, x)
-        if fid:
-            n_known += 1
-            fs["known"] += 1
-            chk.count("known:" + fid[0])
-            chk.known(fid[0], fid[1])
-            if tuple(x["bases"]) not in sampled and sum(1 for q in chk.samples if q.get("known_finding") == fid[0]) < 2:
-                sampled.add(tuple(x["bases"]))
-                chk.sample({"known_finding": fid[0], "bases": x["bases"], "compute_basis": x["out"]["basis"],
-                            "verified_basis": v["spec_basis"], "fails": failing_clauses(v)}, limit=99)
+                            "verified_basis": v["spec_basis"], "verdict": "sound, independent, complete"}, limit=4)
             continue
         n_viol += 1
         if len(reported) < 5:
@@ -384,23 +373,20 @@ def run(tier):
                 reported.add(key)
                 chk.violation(describe(m), replay_blob(m))
     chk.obligation("oracle:rational-lists-judged-by-lean-spec", lean_ok and n_pass > 0 and n_viol == 0,
-                   {"cases": len(recs), "pass": n_pass, "known_finding": n_known, "violations": n_viol,
+                   {"cases": len(recs), "pass": n_pass, "violations": n_viol,
                     "by_family": fam_stats})
-    chk.obligation("correspondence:code-vs-kernelAsCoded", lean_ok and n_model_diff == 0,
+    chk.obligation("correspondence:code-vs-latticeAsCoded", lean_ok and n_model_diff == 0,
                    {"exactly_equal": n_exact, "differences": model_diffs[:5], "n_differences": n_model_diff,
-                    "rule": "same verdict as the Lean model of the code, and identical rows whenever the answer is wrong"})
-    # counterexample theorems are replays of the real code (or the defect is gone and the theorem is stale)
+                    "rule": "compute_basis() returns exactly the rows of the Lean model of the code (same order, same signs)"})
+    # the inputs of the repaired defects F4 / F4b must stay right
     by_bases = {}
     for x in recs:
         by_bases.setdefault(tuple(x["bases"]), x)
-    for thm, (bs, expect) in COUNTEREXAMPLES.items():
-        x = by_bases.get(tuple(bs))
+    for bs, expect in REGRESSION.items():
+        x = by_bases.get(bs)
         got = x["out"].get("basis") if x else None
-        still = got == expect
-        repaired = bool(x and x["out"].get("status") == "ok" and passes(x["verdict"]))
-        chk.obligation("replay:" + thm.split(".")[-1], lean_ok and (still or repaired),
-                       {"bases": bs, "code": got, "theorem_says": expect,
-                        "status": "reproduced on the real code" if still else ("code repaired; theorem about the old code" if repaired else "DIFFERENT")})
+        good = bool(x and x["out"].get("status") == "ok" and passes(x["verdict"]) and (expect is None or got == expect))
+        chk.obligation("regression:" + ",".join(bs), lean_ok and good, {"bases": list(bs), "code": got, "expected": expect})
     # ---------------- quadratic tier (test)
     qcases = [{"D": D, "bases": [list(b) for b in bs]} for D, bs in CORPUS_QUAD]
     qseen = {(c["D"], tuple(map(tuple, c["bases"]))) for c in qcases}
@@ -494,8 +480,8 @@ def run(tier):
         trusted_base=TRUSTED,
         explanation="Proof part: theorems c16_rational (verified basis), c16_check_iff (the three verdicts of lattice_check hold "
                     "iff the returned rows are a Z-basis of the exponent lattice), relation_iff_valuations, intKernel_isBasis, "
-                    "c16_partial_trivial (the coprimality shortcut is right when no base is 1), counterexample theorems for "
-                    "the code as modelled (kernelAsCoded). "
+                    "c16_code_correct (the algorithm as coded - shortcut, multiplicity/parity system, _integer_kernel - returns a "
+                    "Z-basis for every list of non-zero rationals; model latticeAsCoded tied to the code row for row). "
                     "The tie to the code is sampled: every sampled rational list is judged by those verified procedures. "
                     "Irrational/complex lists are a test (sound exactly, complete within a box).",
         extra={"rational_by_family": fam_stats})
